@@ -50,7 +50,10 @@ RULE = ('(1) 2-word x 1-bit MemBlock, (nw,nr) write/read ports: every content (e
         'several initial contents; (2) seeded random designs of 1-4 MemBlocks (addr/data widths 1..70, 1-3 write and '
         '1-3 read ports, free Input addresses or low-bit-tagged addresses) x random histories from an address pool '
         'biased to 0, 2^aw-1, 2^31/2^32/2^63/2^64 neighbours and aliases mod 2^32 / 2^64, disabled ports colliding with '
-        'enabled ones, read-during-write; (3) RomBlocks from list/dict/function, short/sparse/out-of-range data, '
+        'enabled ones, read-during-write; (2b) cross-talk family (every third design): 2-3 MemBlocks over one address space, at least two '
+        'WITHOUT a memory_value_map entry, each driven to read and overwrite the addresses the others wrote, and the '
+        'twin design (two 2-word memories sharing the address inputs) under a De Bruijn walk of all 64 joint operations; '
+        '(3) RomBlocks from list/dict/function, short/sparse/out-of-range data, '
         'pad_with_zeros; (4) the C hash-map helpers alone with 1..256 buckets.  Back-ends: Simulation, FastSimulation, '
         'CompiledSimulation (sub-design with addrwidth <= 64 when it rejects wider ones), Simulation after synthesize() '
         '(merged and 1-bit I/O), after optimize(), Verilog memory fragment.  A case = one '
@@ -74,6 +77,13 @@ M64 = (1 << 64) - 1
 _REPORTED = {}
 _CTX = []          # the (capped) ctx, for the structural gates inside the runners
 _WORKDIR = []
+_PASS_EMPTY = [False]   # True: a memory without initial contents is passed as an explicit empty dict
+
+
+def mvm_of(keys, inits):
+    """memory_value_map: memories without initial contents are left out (so the simulator creates their storage
+    itself) unless _PASS_EMPTY is set"""
+    return {k: dict(i) for k, i in zip(keys, inits) if i or _PASS_EMPTY[0]}
 
 
 # ------------------------------------------------------------------ specification (search oracle)
@@ -191,7 +201,7 @@ class quiet_gcc(object):
 
 def run_python_sim(cls, block, cfgs, mems, inits, dflt, steps):
     """returns (reads per memory per cycle, final items per memory, port orders per memory)"""
-    mvm = {m: dict(i) for m, i in zip(mems, inits)}
+    mvm = mvm_of(mems, inits)
     if cls is pyrtl.Simulation:
         sim = cls(tracer=pyrtl.SimulationTrace(block=block), memory_value_map=mvm, default_value=dflt, block=block)
         nets = list(sim.mem_update_nets)
@@ -221,7 +231,7 @@ def run_compiled(block, cfgs, mems, inits, steps, probes):
     try:
         with quiet_gcc():
             sim = pyrtl.CompiledSimulation(tracer=pyrtl.SimulationTrace(block=block),
-                                           memory_value_map={m: dict(i) for m, i in zip(mems, inits)}, block=block)
+                                           memory_value_map=mvm_of(mems, inits), block=block)
     except pyrtl.PyrtlError as e:
         raise PyrtlRejected(str(e))
     nets = list(block.logic_subset('@'))
@@ -273,7 +283,7 @@ def post_mems(ctx, post, mems, what):
 
 def run_post(ctx, cls, post, cfgs, pm, inits, dflt, steps, what):
     """Simulation-like class on a synthesized/optimized block; pm = [(key for memory_value_map, memory in block)]"""
-    mvm = {key: dict(i) for (key, _), i in zip(pm, inits)}
+    mvm = mvm_of([key for key, _ in pm], inits)
     sim = cls(tracer=pyrtl.SimulationTrace(block=post), memory_value_map=mvm, default_value=dflt, block=post)
     for s in steps:
         sim.step(dict(s))
@@ -295,7 +305,7 @@ def run_post_bitio(ctx, block, cfgs, mems, inits, dflt, steps):
             return {name: v}
         return {'%s[%d]' % (name, i): (v >> i) & 1 for i in range(w)}
     sim = pyrtl.Simulation(tracer=pyrtl.SimulationTrace(block=post),
-                           memory_value_map={key: dict(i) for (key, _), i in zip(pm, inits)},
+                           memory_value_map=mvm_of([key for key, _ in pm], inits),
                            default_value=dflt, block=post)
     for s in steps:
         d = {}
@@ -716,7 +726,9 @@ def data_value(rng, dw):
     return rng.getrandbits(dw)
 
 
-def gen_history(rng, cfg, ncyc, pool):
+def gen_history(rng, cfg, ncyc, pool, foreign=None):
+    """foreign[t] = addresses that OTHER memories of the design have written in cycles < t: this memory then
+    deliberately reads them (it must see its own word, not theirs) and writes them with different data"""
     hist = []
     written = []
     for t in range(ncyc):
@@ -725,6 +737,8 @@ def gen_history(rng, cfg, ncyc, pool):
         for i in range(cfg.nw):
             if cfg.tagged:
                 a = (rng.getrandbits(cfg.aw - 2) if rng.random() < 0.3 else (rng.choice(pool) >> 2)) << 2 | i
+            elif foreign and foreign[t] and rng.random() < 0.35:
+                a = rng.choice(foreign[t])
             else:
                 a = rng.choice(pool) if rng.random() < 0.85 else rng.getrandbits(cfg.aw)
             e = 1 if rng.random() < 0.7 else 0
@@ -737,7 +751,9 @@ def gen_history(rng, cfg, ncyc, pool):
         rs = []
         for j in range(cfg.nr):
             r = rng.random()
-            if r < 0.35 and used:
+            if foreign and foreign[t] and rng.random() < 0.45:
+                rs.append(rng.choice(foreign[t]))            # written earlier in ANOTHER memory
+            elif r < 0.35 and used:
                 rs.append(rng.choice(sorted(used)))          # read-during-write
             elif r < 0.75 and written:
                 rs.append(rng.choice(written))               # written earlier
@@ -747,6 +763,29 @@ def gen_history(rng, cfg, ncyc, pool):
                 rs.append(rng.getrandbits(cfg.aw))           # probably uninitialised
         hist.append((ws, rs))
     return hist
+
+
+def written_before(hists, ncyc):
+    """per cycle t: sorted addresses written (enabled) by any of the given histories in cycles < t"""
+    out, acc = [], set()
+    for t in range(ncyc):
+        out.append(sorted(acc))
+        for h in hists:
+            acc.update(a for a, _, e in h[t][0] if e)
+    return out
+
+
+def cross_reads(hists, mi):
+    """reads by memory mi of an address another memory wrote earlier while mi itself has not written it yet"""
+    n = 0
+    own, others = set(), set()
+    for t in range(len(hists[mi])):
+        n += sum(1 for a in hists[mi][t][1] if a in others and a not in own)
+        own.update(a for a, _, e in hists[mi][t][0] if e)
+        for j, h in enumerate(hists):
+            if j != mi:
+                others.update(a for a, _, e in h[t][0] if e)
+    return n
 
 
 def nontrivial(hist):
@@ -767,25 +806,50 @@ def random_part(ctx, chk, ndesigns, ncyc_range, compiled_every, post_every, veri
     cases = []
     for di in range(ndesigns):
         rng = ctx.sub_rng('design', di)
-        nm = rng.randint(1, 4)
-        cfgs = []
-        for k in range(nm):
-            aw, dw = pick_width(rng), pick_width(rng)
-            if di % 7 == 3 and k == 0:
-                aw = rng.choice([65, 66, 70])       # make sure wide addresses are visited on every run
-            nw, nr = rng.randint(1, 3), rng.randint(1, 3)
-            tagged = (3 <= aw <= 16) and rng.random() < 0.3
-            cfgs.append(MemCfg(k, aw, dw, nw, nr, tagged))
+        cross = (di % 3 == 1)
+        if cross:
+            # cross-talk family: 2-3 memories over the SAME address space, at least two of them without a
+            # memory_value_map entry and one with; every memory is driven onto the addresses the others wrote
+            nm = rng.randint(2, 3) if di % 2 else 3
+            aw = rng.choice([1, 2, 3, 8, 32, 33, 64]) if rng.random() < 0.7 else min(pick_width(rng), 64)
+            cfgs = [MemCfg(k, aw, pick_width(rng) if rng.random() < 0.6 else 8, rng.randint(1, 2), rng.randint(1, 3))
+                    for k in range(nm)]
+            shared = addr_pool(rng, aw)[:5]
+            pools = [shared] * nm
+            with_init = rng.randrange(nm) if nm == 3 else None
+        else:
+            nm = rng.randint(1, 4)
+            cfgs = []
+            for k in range(nm):
+                aw, dw = pick_width(rng), pick_width(rng)
+                if di % 7 == 3 and k == 0:
+                    aw = rng.choice([65, 66, 70])       # make sure wide addresses are visited on every run
+                nw, nr = rng.randint(1, 3), rng.randint(1, 3)
+                tagged = (3 <= aw <= 16) and rng.random() < 0.3
+                cfgs.append(MemCfg(k, aw, dw, nw, nr, tagged))
+            pools = [addr_pool(rng, c.aw) for c in cfgs]
         dflt = 0 if rng.random() < 0.7 else 1
         ncyc = rng.randint(*ncyc_range)
-        pools = [addr_pool(rng, c.aw) for c in cfgs]
         inits = []
         for c, pool in zip(cfgs, pools):
             init = {}
-            for a in pool[:rng.randint(0, 4)]:
+            n_init = rng.randint(0, 4)
+            if cross:
+                n_init = rng.randint(1, 3) if c.k == with_init else 0
+            for a in pool[:n_init]:
                 init[a] = data_value(rng, c.dw)
             inits.append(list(init.items()))
-        hists = [gen_history(rng, c, ncyc, p) for c, p in zip(cfgs, pools)]
+        if cross:
+            hists = []
+            for c in cfgs:
+                hists.append(gen_history(rng, c, ncyc, shared, foreign=written_before(hists, ncyc) if hists else None))
+            # the first memory was generated blind: regenerate it against the others
+            hists[0] = gen_history(rng, cfgs[0], ncyc, shared, foreign=written_before(hists[1:], ncyc))
+            ctx.count('cross_talk_designs', '%d memories, %d without memory_value_map entry' % (nm, sum(1 for i in inits if not i)))
+            ctx.count('cross_talk_reads(address written earlier in another memory, not yet in this one)', 'total',
+                      sum(cross_reads(hists, mi) for mi in range(nm)))
+        else:
+            hists = [gen_history(rng, c, ncyc, p) for c, p in zip(cfgs, pools)]
         steps = steps_of(cfgs, hists, ncyc)
         probes = []
         for c, pool, h, init in zip(cfgs, pools, hists, inits):
@@ -793,7 +857,7 @@ def random_part(ctx, chk, ndesigns, ncyc_range, compiled_every, post_every, veri
             ps = touched[:10] + [a for a in pool if a not in touched][:3]
             probes.append(ps)
         cases.append(dict(di=di, cfgs=cfgs, dflt=dflt, ncyc=ncyc, inits=inits, hists=hists, steps=steps,
-                          probes=probes, results={}))
+                          probes=probes, results={}, pass_empty=(not cross and di % 5 == 4)))
         for c in cfgs:
             ctx.count('addrwidth', c.aw if c.aw <= 8 else ('9-31' if c.aw < 32 else ('32-64' if c.aw <= 64 else '65-70')))
             ctx.count('bitwidth', c.dw if c.dw <= 8 else ('9-31' if c.dw < 32 else ('32-64' if c.dw <= 64 else '65-70')))
@@ -804,6 +868,9 @@ def random_part(ctx, chk, ndesigns, ncyc_range, compiled_every, post_every, veri
     for case in cases:
         cfgs, dflt, steps, inits = case['cfgs'], case['dflt'], case['steps'], case['inits']
         di = case['di']
+        _PASS_EMPTY[0] = case['pass_empty']
+        ctx.count('memories_without_initial_contents', 'explicit {}' if case['pass_empty'] else 'no memory_value_map entry',
+                  sum(1 for i in inits if not i))
         block = build_design(cfgs)
         mems = [c.mem for c in cfgs]
         res = case['results']
@@ -882,6 +949,7 @@ def random_part(ctx, chk, ndesigns, ncyc_range, compiled_every, post_every, veri
             res['opt'] = run_python_sim(pyrtl.Simulation, b2, cfgs, mems2, inits, dflt, steps)[:2]
             for c, m in zip(cfgs, mems):
                 c.mem = m
+    _PASS_EMPTY[0] = False
     # ---- Coq: the array spec and the three models decide, inside Coq, whether they agree with what
     #      the implementation produced (compact protocol, see Mem/MemHarness.v mem_check)
     exprs = []
@@ -1046,7 +1114,7 @@ def sweep_part(ctx, chk, configs, dflts):
                         ('fast', pyrtl.FastSimulation, block, mem, mem),
                         ('synth', pyrtl.Simulation, be['synth'][0], be['synth'][1][0][0], be['synth'][1][0][1]),
                         ('synth+opt', pyrtl.Simulation, be['synth+opt'][0], be['synth+opt'][1][0][0], be['synth+opt'][1][0][1])):
-                    sim = cls(tracer=pyrtl.SimulationTrace(block=blk), memory_value_map={key: dict(content)},
+                    sim = cls(tracer=pyrtl.SimulationTrace(block=blk), memory_value_map=mvm_of([key], [content]),
                               default_value=dflt, block=blk)
                     if name == 'sim':
                         order = port_order(list(sim.mem_update_nets), 0)
@@ -1066,7 +1134,7 @@ def sweep_part(ctx, chk, configs, dflts):
                 if dflt == 0:
                     try:
                         sim = pyrtl.CompiledSimulation(tracer=pyrtl.SimulationTrace(block=block),
-                                                       memory_value_map={mem: dict(content)}, block=block)
+                                                       memory_value_map=mvm_of([mem], [content]), block=block)
                         order = port_order(list(block.logic_subset('@')), 0)
                         rows = []
                         for t, s in enumerate(steps_all):
@@ -1176,6 +1244,90 @@ def walk_part(ctx, chk, walks):
                          sample=dict(replay, backend=backend, window_of_operations=hist[t:t + order],
                                      reads=r[0][0][t:t + order])
                          if (t == 100 and backend == 'compiled' and cfg.nw == 1 and not content) else None)
+
+
+def build_twin():
+    """two 2-word x 1-bit memories driven by ONE write-address input and ONE read-address input (separate data
+    and enables): a word written to address k of one must never show up at address k of the other"""
+    pyrtl.reset_working_block()
+    cfgs = [MemCfg(0, 1, 1, 1, 1), MemCfg(1, 1, 1, 1, 1)]
+    wa, ra = pyrtl.Input(1, 'wa'), pyrtl.Input(1, 'ra')
+    for c in cfgs:
+        m = pyrtl.MemBlock(bitwidth=1, addrwidth=1, name='mem%d' % c.k, max_read_ports=None, max_write_ports=None,
+                           asynchronous=True)
+        c.mem = m
+        m[wa] <<= pyrtl.MemBlock.EnabledWrite(pyrtl.Input(1, 'm%d_wd0' % c.k), pyrtl.Input(1, 'm%d_we0' % c.k))
+        o = pyrtl.Output(1, 'm%d_o0' % c.k)
+        o <<= m[ra]
+    return pyrtl.working_block(), cfgs
+
+
+def twin_part(ctx, chk, order, init_pairs, dflts):
+    """De Bruijn walk over all 64 joint operations (wa, ra, dataA, enA, dataB, enB) of the twin design; each memory
+    is compared with its OWN array and its own Coq models (walk_check on its projected history)"""
+    joint = [(a, r, d0, e0, d1, e1) for a in (0, 1) for r in (0, 1) for d0 in (0, 1) for e0 in (0, 1)
+             for d1 in (0, 1) for e1 in (0, 1)]
+    seq = [joint[i] for i in de_bruijn(len(joint), order)]
+    hists = [[([(a, (d0, d1)[k], (e0, e1)[k])], [r]) for (a, r, d0, e0, d1, e1) in seq] for k in (0, 1)]
+    steps = [{'wa': a, 'ra': r, 'm0_wd0': d0, 'm0_we0': e0, 'm1_wd0': d1, 'm1_we0': e1} for (a, r, d0, e0, d1, e1) in seq]
+    ops11 = ok_ops(1, 1)
+    index11 = {repr(op): i for i, op in enumerate(ops11)}
+    exprs, meta = [], []
+    for dflt in dflts:
+        for inits in init_pairs:
+            block, cfgs = build_twin()
+            mems = [c.mem for c in cfgs]
+            res = {}
+            res['sim'] = run_python_sim(pyrtl.Simulation, block, cfgs, mems, inits, dflt, steps)
+            res['fast'] = run_python_sim(pyrtl.FastSimulation, block, cfgs, mems, inits, dflt, steps)
+            if dflt == 0:
+                try:
+                    res['compiled'] = run_compiled(block, cfgs, mems, inits, steps, [[0, 1], [0, 1]])
+                except PyrtlRejected as e:
+                    ctx.count('compiled_rejected_by_pyrtl', str(e)[:60])
+            post = pyrtl.synthesize(update_working_block=False, block=block)
+            pm = post_mems(ctx, post, mems, 'synthesize')
+            res['synth'] = run_post(ctx, pyrtl.Simulation, post, cfgs, pm, inits, dflt, steps, 'synthesize')
+            pyrtl.optimize(update_working_block=True, block=post)
+            res['synth+opt'] = run_post(ctx, pyrtl.Simulation, post, cfgs, pm, inits, dflt, steps, 'optimize')
+            for k in (0, 1):
+                hist = hists[k]
+                py_reads, py_final = spec_run(inits[k], dflt, hist)
+                codes = [index11[repr(([tuple(w) for w in op[0]], list(op[1])))] for op in hist]
+                pcodes = [pack([(x, 4) for x in codes[q:q + 16]]) for q in range(0, len(codes), 16)]
+                rcodes = [rd[0] for rd in py_reads]
+                pexp = [pack([(x, 1) for x in rcodes[q:q + 32]]) for q in range(0, len(rcodes), 32)]
+                exprs.append('walk_check %d %s 1%%nat 1%%nat 4 16%%nat %d%%nat %s %s [0%%nat] [0%%nat] [0%%nat]' % (
+                    dflt, hpairs(inits[k]), len(codes), hzlist(pcodes), hzlist(pexp)))
+                meta.append((cfgs[k], k, hist, dflt, inits, res, py_reads, py_final))
+            ctx.count('twin_walk_cycles', 'order %d, entries in memory_value_map: %s' % (
+                order, '+'.join('yes' if i else 'no' for i in inits)), len(seq))
+    out = ctx.coq_eval(exprs, IMPORTS, tag='c08twin', shard=1, jobs=15)
+    for (cfg, k, hist, dflt, inits, res, py_reads, py_final), v in zip(meta, out):
+        flags, finals = [bool(x) for x in v[0]], v[1]
+        sfinal = list(finals[0])
+        d1, d2, f3 = [tuple(p) for p in finals[1]], [tuple(p) for p in finals[2]], list(finals[3])
+        replay = {'tier': ctx.tier, 'design': 'twin: two 2-word x 1-bit MemBlocks sharing the address inputs',
+                  'memory_index': k, 'memory': cfg.desc(), 'memory_value_map': inits[k],
+                  'other_memory_value_map': inits[1 - k], 'default_value': dflt,
+                  'note': 'entries are omitted from memory_value_map when empty'}
+        if not (flags[0] and flags[1] and flags[2]) or [py_final.get(a, dflt) for a in (0, 1)] != sfinal:
+            ctx.model_mismatch('twin: Coq array spec and Python array spec disagree (flags %s)' % flags, replay)
+            continue
+        for backend, r in sorted(res.items()):
+            if backend == 'compiled':
+                chk.compare(cfg, backend, inits[k], 0, hist, py_reads, py_final, r[0][k], r[1][k], [0, 1], replay, 'probes',
+                            tie=(flags[5], list(r[1][k]) == f3))
+            else:
+                mfinal = {'sim': d1, 'fast': d2}.get(backend)
+                fl = {'sim': flags[3], 'fast': flags[4]}.get(backend, flags[3])
+                chk.compare(cfg, backend, inits[k], dflt, hist, py_reads, py_final, r[0][k], r[1][k], [0, 1], replay, 'items',
+                            tie=(fl, None if mfinal is None else [tuple(x) for x in r[1][k]] == mfinal))
+            for t in range(len(hist) - order + 1):
+                ctx.case(('twin', backend, k, order, dflt, repr(inits), t), nontrivial=True,
+                         sample=dict(replay, backend=backend, joint_operations='(wa, ra, dataA, enA, dataB, enB)',
+                                     window=seq[t:t + order], reads_of_this_memory=r[0][k][t:t + order])
+                         if (t == 200 and backend == 'sim' and k == 1 and not inits[0] and not inits[1] and dflt == 0) else None)
 
 
 # ------------------------------------------------------------------ part 4: the emitted C hash map alone
@@ -1487,6 +1639,7 @@ def run(real_ctx):
         _timed(ctx, 'walk_part', walk_part, ctx, chk, [(1, 1, 3, [[], [(0, 1)], [(1, 1), (0, 0)]], [0, 1]),
                              (2, 1, 2, [[], [(1, 1)]], [0]),
                              (1, 2, 2, [[]], [0, 1])])
+        _timed(ctx, 'twin_part', twin_part, ctx, chk, 2, [[[], []], [[], [(0, 1)]], [[(1, 1)], []]], [0, 1])
         _timed(ctx, 'random_part', random_part, ctx, chk, ndesigns=72, ncyc_range=(30, 70), compiled_every=2, post_every=3, verilog_every=2)
         _timed(ctx, 'rom_part', rom_part, ctx, ndesigns=8, per_design=6)
         _timed(ctx, 'hashmap_part', hashmap_part, ctx, nseq=36, nops=60)
@@ -1496,6 +1649,7 @@ def run(real_ctx):
                              (2, 1, 2, [[], [(1, 1)]], [0, 1]),
                              (1, 2, 3, [[], [(0, 1)]], [0, 1]),
                              (2, 2, 2, [[], [(1, 0)]], [0])])
+        _timed(ctx, 'twin_part', twin_part, ctx, chk, 2, [[[], []], [[], [(0, 1)]], [[(1, 1)], []], [[(0, 0)], [(0, 1), (1, 1)]]], [0, 1])
         _timed(ctx, 'random_part', random_part, ctx, chk, ndesigns=700, ncyc_range=(30, 120), compiled_every=1, post_every=2, verilog_every=2)
         _timed(ctx, 'rom_part', rom_part, ctx, ndesigns=60, per_design=6)
         _timed(ctx, 'hashmap_part', hashmap_part, ctx, nseq=300, nops=120)
